@@ -1,8 +1,12 @@
-\* C20 (mode switch): every sequence of 5 set / extract operations on two threads
+\* C20 (mode switch): every sequence of set / begin / acquire / finish steps on two threads, at the grain of the code
 SPECIFICATION Spec
 CONSTANTS
   Thr = {"t1", "t2"}
-  MaxSteps = 4
+  MaxSteps = 5
+  NoRecheck = FALSE
+INVARIANT TypeOK
+INVARIANT LockDiscipline
 INVARIANT SetTakesEffect
+PROPERTY ExplicitSettingSurvives
 CONSTRAINT Emit
 CHECK_DEADLOCK FALSE
